@@ -238,6 +238,7 @@ def run(res, programs, tier):
                     res.ok("R13.2", cfgname, key, sample=dict(function=f["p"], note="is_g_one reads gcd_ext_in_place(..).0 (g_len)"))
                 else:
                     res.fail("R13.2", cfgname, key, "inv_large decides invertibility without the length of the gcd returned by gcd_ext_in_place: a multi-word gcd whose lowest word is 1 would be taken for 1 and inv() would return Some for a non-invertible element", span_loc(f["sp"]))
+        _r13_4(res, P, cfgname)
         # ---- R13.3b constructors
         ctor_ok = {M + "Reduced::<'a>::from_single", M + "Reduced::<'a>::from_double", M + "Reduced::<'a>::from_large"}
         nct = 0
@@ -255,3 +256,93 @@ def run(res, programs, tier):
                     else:
                         res.fail("R13.3", cfgname, key, "Reduced(..) constructed in %s, outside from_single/from_double/from_large" % f["p"], span_loc(s["sp"]))
         res.floor("R13.3", cfgname, nct, 3, "Reduced(..) constructor sites")
+
+
+# ---------------------------------------------------------------------------------------------
+# R13.4  provenance of raw residues.  `ReducedWord(x)` / `ReducedDword(x)` wrap a *normalised* residue
+# (0 <= x < m << shift).  Every struct-literal site must take x from a reducing kernel of the ring, from
+# a reviewed producer, be the constant 0, or sit on an edge where x was compared with
+# ring.normalized_divisor().  A value computed from constants and the shift alone (1 << shift) is not
+# reduced in the ring of modulus 1 (F24: `one()` returned the normalised divisor itself).
+RAW_ADTS = ("dashu_int::modular::repr::ReducedWord", "dashu_int::modular::repr::ReducedDword")
+KERNEL_PREFIXES = ("dashu_int::div_const::ConstSingleDivisor::", "dashu_int::div_const::ConstDoubleDivisor::",
+                   "dashu_int::fast_div::", "dashu_base::ring::")
+KERNEL_TRAITS = ("num_modular::Reducer<",)      # <impl num_modular::Reducer<T> for PreMulInv..>::{neg,dbl,sqr,mul,..}
+
+
+def _is_kernel(path):
+    return path.startswith(KERNEL_PREFIXES) or any(k in path for k in KERNEL_TRAITS)
+# reviewed producers of an already reduced value (one line of reason each)
+RAW_REVIEWED = {
+    "convert_from_normalized": "contract of the function: `target` is the output of a normalised in-ring kernel (mul/pow of valid residues)",
+    "inv::{closure#0}": "closure of Option::map over ring.0.inv(..): the argument is the kernel's inverse",
+    "inv::{closure#1}": "closure of Option::map over ring.0.inv(..): the argument is the kernel's inverse",
+    "ReducedDword::one": "a ConstDoubleDivisor modulus has two words, so 1 << shift < m << shift",
+}
+NORM_DIV = ("::normalized_divisor",)
+
+
+def _r13_4(res, P, cfgname):
+    res.rule("R13.4", "the operand of every ReducedWord(..)/ReducedDword(..) literal comes from a ring kernel, a reviewed producer, is 0, or was compared with ring.normalized_divisor() on the path (a constant-derived value is not a residue modulo 1)")
+    n = 0
+    for f in P.fns("dashu_int"):
+        b = f.get("mir")
+        if not b:
+            continue
+        sites = [(i, s) for i, j, s in mir.iter_stmts(b)
+                 if s["k"] == "as" and s["rv"]["k"] == "agg" and s["rv"].get("adt") in RAW_ADTS]
+        if not sites:
+            continue
+        S = sym.Sym(f)
+        cfg = mir.cfg_of(b)
+        for bbi, s in sites:
+            if bbi not in cfg.reachable():
+                continue
+            n += 1
+            t = sym.strip_casts(S.operand(s["rv"]["ops"][0])) if s["rv"].get("ops") else None
+            adt = s["rv"]["adt"].rsplit("::", 1)[-1]
+            key = "%s(..) in %s" % (adt, f["p"])
+            why = _raw_ok(f, t, S, cfg, bbi)
+            if why:
+                res.ok("R13.4", cfgname, key + " #" + why[0], sample=dict(function=f["p"], operand=sym.term_str(t, 120), discharged_by=why[1]))
+            else:
+                res.fail("R13.4", cfgname, key, "%s(%s) in %s: the wrapped value does not come from a ring kernel and is not compared with normalized_divisor() on the path, so it need not be a residue (< m << shift) for every modulus (m = 1: 1 << shift equals the normalised divisor)" % (adt, sym.term_str(t, 100), f["p"]), span_loc(s["sp"]))
+    res.floor("R13.4", cfgname, n, 12, "ReducedWord/ReducedDword literal sites")
+
+
+def _raw_ok(f, t, S, cfg, bbi):
+    if t is None:
+        return None
+    for k, why in RAW_REVIEWED.items():
+        if f["p"].endswith(k):
+            return ("reviewed", why)
+    if t[0] == "const" and t[1] == 0:
+        return ("zero", "the constant 0 is a residue of every ring")
+    root = t
+    # look through Result/Option unwrapping and conversions of a kernel result
+    calls = sym.calls_in(t)
+    if t[0] == "call" and _is_kernel(t[1]):
+        return ("kernel", "result of " + t[1][:90])
+    if t[0] == "place" and isinstance(t[1], tuple) and t[1][0] == "call" and _is_kernel(t[1][1]):
+        return ("kernel", "projection of the result of " + t[1][1][:90])
+    if t[0] == "var":
+        # a local assigned on several paths: every definition must be a kernel call
+        du = mir.defuse_of(f["mir"])
+        defs = du.defs.get(t[1], [])
+        if defs and all(n.get("k") == "call" and _is_kernel(mir.callee_path(n)) for (_i, _j, n) in defs):
+            return ("kernel", "every definition is a kernel call: " + ", ".join(sorted({mir.callee_path(n).rsplit("::", 1)[-1] for (_i, _j, n) in defs})))
+    # a field of an existing raw residue (copy)
+    if t[0] == "place" and any(str(pj) in (".0",) for pj in t[2]) and not calls:
+        base = t[1]
+        if base[0] in ("arg", "place", "var"):
+            return ("copy", "field of an existing raw residue")
+    # compared with the normalised divisor on every path to this site
+    for c in guards.constraints_at(S, cfg, bbi):
+        if c[0] != "rel":
+            continue
+        _, op, A, B = c
+        A1, B1 = sym.strip_casts(A), sym.strip_casts(B)
+        for x, y, o in ((A1, B1, op), (B1, A1, guards._SWAP[op])):
+            if x == t and y[0] == "call" and y[1].endswith(NORM_DIV) and o in ("Ne", "Lt"):
+                return ("guard", "on the edge `%s %s normalized_divisor()`" % (sym.term_str(t, 60), o))
+    return None
